@@ -111,7 +111,7 @@ def default_for(engine, ty):
         return BV(False)
     if t.startswith('Option<'):
         return mk_option(False, ty=t)
-    if t.startswith('Vec<'):
+    if t.startswith('Vec<') or t.startswith('TinyVec<'):
         return VecV([])
     if t == 'String':
         return Opaque('""')
@@ -460,6 +460,22 @@ def iterator_method(engine, st, method, args, dest_ty):
             n = seq_len(s)
             byref = isinstance(v, RefV)
             return IterV([RefV(s, i) if byref else s.get(i) for i in range(n)])
+    if method == 'try_fold' and isinstance(deref_all(args[0]), Agg) and deref_all(args[0]).ty.endswith('RangeFrom'):
+        # `(0..).try_fold(..)`: runs until the closure breaks (bounded by a step limit)
+        acc = args[1]
+        clo = args[2]
+        holder = RefV(Cell(clo), 0, True) if not isinstance(clo, RefV) else clo
+        start = deref_all(args[0]).fields[0]
+        i = start.concrete()
+        for step in range(64):
+            r = engine.call_closure(st, holder, [acc, IV(i + step, start.ty)])
+            v = r.variant()
+            if v is None:
+                v = 0 if engine.split_bool(st, r.discr == 0) else 1
+            if v == 1:
+                return EnumV(dest_ty or 'ControlFlow', 1, {1: [r.payload[1][0]]})
+            acc = r.payload[0][0]
+        raise Inconclusive('unbounded try_fold did not terminate within 64 steps')
     it = as_iter(args[0])
     if method == 'skip':
         n = args[1].concrete()
@@ -498,6 +514,19 @@ def iterator_method(engine, st, method, args, dest_ty):
         return VecV(list(it.items))
     if method == 'map':
         return IterV([engine.call_closure(st, args[1], [x]) for x in it.items])
+    if method == 'flat_map':
+        out = []
+        for x in it.items:
+            inner = engine.call_closure(st, args[1], [x])
+            out.extend(iterator_method(engine, st, 'into_iter', [inner], '').items)
+        return IterV(out)
+    if method == 'filter':
+        out = []
+        for x in it.items:
+            r = engine.call_closure(st, args[1], [RefV(Cell(x), 0)])
+            if engine.split_bool(st, r.t):
+                out.append(x)
+        return IterV(out)
     if method == 'fold':
         acc = args[1]
         clo = args[2]
@@ -662,6 +691,13 @@ def std_path(engine, st, name, args, dest_ty):
                 return BV(zs(s.size == 0))
             if last == 'len':
                 return IV(s.size)
+            if last == 'insert':
+                # abstraction: the set is only observed through its size / emptiness; inserting a new job grows it
+                s2 = SetV(zs(s.size + 1))
+                holder = args[0]
+                if isinstance(holder, RefV):
+                    holder.store(s2)
+                return BV(True)
         raise Inconclusive(f'hash container call {name}')
     if name in ('std::mem::drop', 'drop', 'core::mem::drop'):
         return UnitV()
@@ -802,6 +838,12 @@ def seq_method(engine, st, method, args, dest_ty):
         return args[0]
     if method == 'push':
         s.items.append(args[1])
+        return UnitV()
+    if method == 'insert' and isinstance(s, VecV):
+        i = args[1].concrete()
+        if i is None or i > len(s.items):
+            raise Inconclusive('Vec::insert with symbolic or out-of-range index')
+        s.items.insert(i, args[2])
         return UnitV()
     if method == 'pop':
         if not s.items:
